@@ -140,7 +140,7 @@ func reachableSrc(rc *RenderCase, name string) string {
 		src := templateSrc(rc.Src, n)
 		sb.WriteString(src)
 		for _, t := range rc.File.Templates {
-			if strings.Contains(src, "@render "+t.Name+"(") {
+			if strings.Contains(src, "@render "+t.Name+"(") || strings.Contains(src, "@render\t"+t.Name+"(") {
 				walk(t.Name)
 			}
 		}
@@ -240,7 +240,7 @@ func (c *Ctx) featDist(cases []*RenderCase) {
 func c01(c *Ctx) {
 	c.Rep.TieObs = []string{"O-render: bytes written / error class of freshly generated, go-built code vs Exec on the parsed tree"}
 	c.Rep.Rule = "files of 3 layouts + N pages from the typed template grammar (every documented construct and syntactic variant), each template rendered under adversarial environments by real `go build` output and by the model; oracle: generator-intent document vs x/net/html tokens of the real bytes; distinct = distinct (template text, environment); non-trivial = every rendered template (each has at least one construct)"
-	o := gen.Opts{ObjRefs: true, ClassExprs: true, AttributesCmd: true, NonASCII: true, MaxDepth: 3, BlankLines: true, ShorthandElse: true}
+	o := gen.Opts{ObjRefs: true, ClassExprs: true, AttributesCmd: true, NonASCII: true, MaxDepth: 3, BlankLines: true, ShorthandElse: true, Switch: true, TrailingSpace: true}
 	cases := c.stdRenderCases(c.N(3, 40), 3, c.N(24, 40), c.N(6, 10), o)
 	c.renderBoth(cases)
 	c.featDist(cases)
@@ -251,7 +251,7 @@ func c01(c *Ctx) {
 func c14(c *Ctx) {
 	c.Rep.TieObs = []string{"O-render (exact bytes, including white space)"}
 	c.Rep.Rule = "templates placing >, <, ><, <> on elements in every structural position (first/last/only child, adjacent marked siblings, inside children blocks and nested templates, around dynamic text with blanks) with and without filters; oracle: exact bytes vs the generator-intent layout and absence of the marker sequences; distinct = distinct (template, environment); non-trivial = template contains a marker, a filter or a nested block"
-	o := gen.Opts{ObjRefs: false, ClassExprs: false, AttributesCmd: false, NonASCII: true, MaxDepth: 3, MarkerHeavy: true, BlankLines: true, ShorthandElse: true}
+	o := gen.Opts{ObjRefs: false, ClassExprs: false, AttributesCmd: false, NonASCII: true, MaxDepth: 3, MarkerHeavy: true, BlankLines: true, ShorthandElse: true, Switch: true}
 	cases := c.stdRenderCases(c.N(6, 40), 3, c.N(24, 40), c.N(6, 10), o)
 	c.renderBoth(cases)
 	c.featDist(cases)
@@ -280,7 +280,7 @@ func c14(c *Ctx) {
 func c05(c *Ctx) {
 	c.Rep.TieObs = []string{"O-render"}
 	c.Rep.Rule = "call graphs of generated templates: layouts using @children zero, one or several times, rendering earlier layouts (forwarding their own children), pages nesting @render inside children blocks; oracle: generator-intent inlining (block evaluated in the caller's scope, empty children when none given) vs real bytes; distinct = distinct (template, environment); non-trivial = template reaches @render"
-	o := gen.Opts{ObjRefs: false, ClassExprs: false, NonASCII: false, MaxDepth: 3, RenderHeavy: true, BlankLines: true, ShorthandElse: true, SpaceIndent: true}
+	o := gen.Opts{ObjRefs: false, ClassExprs: false, NonASCII: false, MaxDepth: 3, RenderHeavy: true, BlankLines: true, ShorthandElse: true, SpaceIndent: true, Switch: true}
 	cases := c.stdRenderCases(c.N(3, 40), 4, c.N(24, 40), c.N(5, 8), o)
 	// the same call graphs over text that is not ASCII (lines of a block that start with a multi-byte rune, after
 	// comments and filters included)
